@@ -100,6 +100,24 @@ def check_state(sh, FSM, tag, images, info, specs_after, base, d, scratch, case,
     nF = info.get('finish_ret', base)      # markers carry the absolute commit count
     sh.count('crash_states_reopened')
     wit = {'tag': tag, 'nF': nF, 'last_marker': info.get('last')}
+    if sh.counters.get('crash_states_reopened', 0) % 3 == 0:
+        # every third crash state is first opened read-only (a backup tool, a replica): same prefix, nothing unfinished
+        sh.count('crash_states_opened_read_only_first')
+        try:
+            ro = FSM.FileStorage(path, read_only=True)
+            try:
+                got_ro = real_dump(ro)
+            finally:
+                ro.close()
+        except Exception as e:
+            sh.violation('c01:read-only-reopen-raises-%s' % type(e).__name__, dict(wit, exc=repr(e)[:300]), dict(case, tag=tag))
+            return
+        if not any(n < len(specs_after) and got_ro == specs_after[n].dump() for n in (nF, nF + 1)):
+            ntx = len(got_ro[0])
+            kind = ('committed-transaction-lost' if ntx < nF else
+                    'unfinished-transaction-visible' if ntx > nF + 1 or ntx > len(specs_after) - 1 else 'state-differs')
+            sh.violation('c01:read-only-reopen:%s' % kind, dict(wit, real_txns=ntx, model_txns=[nF, nF + 1]), dict(case, tag=tag))
+            return
     try:
         fs = FSM.FileStorage(path)
     except Exception as e:
